@@ -46,7 +46,7 @@ ROOTS = [
     ("team", "vita::team<vita::i_mep>"),
     ("pop", "vita::population<vita::i_mep>"),
     ("summ", "vita::summary<vita::i_mep>"),
-    ("cache", "vita::cache"),
+    ("cachet", "vita::cache"),
 ]
 
 # vita containers snapshotted by value semantics (sequence of elements), like std::vector: their
